@@ -7,7 +7,7 @@ import ast
 from sa.cfg import all_paths_pass, dominators, reachable, reaches
 from sa.db import AnalysisError, FuncInfo, ancestors, bind_args, dotted, src, walk_local
 from sa.model import contains, enclosing
-from sa.variants import Variant, replace_once, sub_first, sub_once
+from sa.variants import Variant, chain, replace_once, sub_first, sub_once
 
 from .c07 import check_cache_invalidation
 from .common import call_names, enclosing_facts, is_none_fact
@@ -45,6 +45,7 @@ def run(ctx) -> None:
     rep.rule("C19.R5", "node metadata read by validators cannot be stale after renames", floor=1)
     rep.rule("C19.R6", "strict type validation covers every value of every data edge", floor=3)
     rep.rule("C19.R7", "the shared-output check examines every unordered pair of producers", floor=2)
+    rep.rule("C19.R8", "gate-kind exhaustiveness: a test for one concrete gate class is either completed by its siblings or goes on to use something only that class has", floor=6)
 
     vg = db.func("graph.validation.validate_graph")
     vmod = vg.module
@@ -230,6 +231,9 @@ def run(ctx) -> None:
         ok = bool(solve(["for _T in _G.targets: ...", "_T in self._nodes"], ccb.node))
         rep.add("C19.R3", f"{ccb.qname}:guard", ok, ccb.loc(), "controlled_by only records targets that are nodes" if ok else "controlled_by records targets that are not nodes")
 
+    # ---- R8 ---------------------------------------------------------------------
+    check_gate_kind_exhaustive(ctx, "C19.R8")
+
     # ---- R7 ---------------------------------------------------------------------
     voc_f = db.func("graph._conflict.validate_output_conflicts")
     n_pairs = 0
@@ -306,7 +310,71 @@ VA = "src/hypergraph/graph/validation.py"
 CO = "src/hypergraph/graph/_conflict.py"
 CORE = "src/hypergraph/graph/core.py"
 BASE = "src/hypergraph/nodes/base.py"
+def _declares(ci, attr: str) -> bool:
+    if attr in ci.methods:
+        return True
+    for n in ci.node.body:
+        if isinstance(n, ast.AnnAssign) and isinstance(n.target, ast.Name) and n.target.id == attr:
+            return True
+        if isinstance(n, ast.Assign) and any(isinstance(t, ast.Name) and t.id == attr for t in n.targets):
+            return True
+    for m in ci.methods.values():
+        for x in ast.walk(m.node):
+            if isinstance(x, ast.Attribute) and isinstance(x.ctx, ast.Store) and isinstance(x.value, ast.Name) and x.value.id == "self" and x.attr == attr:
+                return True
+    return False
+
+
+def check_gate_kind_exhaustive(ctx, rule: str, modules: tuple[str, ...] = ("hypergraph.graph", "hypergraph.runners", "hypergraph.nodes")) -> None:
+    """Every ``isinstance(x, <concrete gate class>)`` outside the gate module itself: the classes tested
+    for ``x`` in that function cover all concrete gate kinds, or ``x`` is then used through an attribute
+    that only the tested classes declare (the test is about that kind's own feature).  A validator or
+    runner step that silently narrows from GateNode to one kind skips the other kinds."""
+    db, rep = ctx.db, ctx.rep
+    gate = db.cls("nodes.gate.GateNode")
+    kinds = [c for c in gate.all_subclasses() if c is not gate]
+    concrete = {c.qname for c in kinds if not c.all_subclasses() or True}
+    n = 0
+    for f in db.all_funcs():
+        if not f.module.name.startswith(modules) or f.module.name == gate.module.name:
+            continue
+        per_var: dict[str, list[tuple[ast.Call, list]]] = {}
+        for c in walk_local(f.node):
+            if isinstance(c, ast.Call) and dotted(c.func) == "isinstance" and len(c.args) == 2 and isinstance(c.args[0], ast.Name):
+                cl = []
+                for e in c.args[1].elts if isinstance(c.args[1], ast.Tuple) else [c.args[1]]:
+                    r = db.resolve_expr_symbol(e, f.module, f)
+                    if r and r[0] == "class":
+                        cl.append(r[1])
+                if any(k.qname in concrete for k in cl):
+                    per_var.setdefault(c.args[0].id, []).append((c, cl))
+        for v, tests in per_var.items():
+            n += 1
+            tested = {k.qname for _, cl in tests for k in cl if k.qname in concrete}
+            # sub-kinds count for their ancestors
+            covered = set(tested)
+            for k in kinds:
+                if any(a.qname in tested for a in k.mro()):
+                    covered.add(k.qname)
+            ok = covered >= concrete
+            why = f"tests cover every gate kind ({', '.join(sorted(q.split('.')[-1] for q in tested))})"
+            if not ok:
+                tested_cls = [k for k in kinds if k.qname in tested]
+                own = set()
+                for x in walk_local(f.node):
+                    if isinstance(x, ast.Attribute) and isinstance(x.value, ast.Name) and x.value.id == v:
+                        if any(_declares(k, x.attr) for k in tested_cls) and not any(_declares(a, x.attr) for a in gate.mro()):
+                            own.add(x.attr)
+                ok = bool(own)
+                why = f"kind-specific: uses {sorted(own)} which only {', '.join(k.name for k in tested_cls)} declares" if ok else f"only {', '.join(sorted(q.split('.')[-1] for q in tested))} is handled although nothing specific to it is used: {', '.join(sorted(q.split('.')[-1] for q in concrete - covered))} gates are skipped"
+            rep.add(rule, f"{f.qname}:{v}", ok, f"{f.module.rel}:{tests[0][0].lineno}", why)
+    if n < 4:
+        raise AnalysisError(f"only {n} gate-kind tests found")
+
+
 VARIANTS = [
+    Variant("gate-targets-route-only", VA, chain(replace_once("    from hypergraph.nodes.gate import END, GateNode\n\n    for node in nodes.values():\n        if not isinstance(node, GateNode):\n            continue\n\n        for target in node.targets:", "    from hypergraph.nodes.gate import END, RouteNode\n\n    for node in nodes.values():\n        if not isinstance(node, RouteNode):\n            continue\n\n        for target in node.targets:")), {"C19.R8"}),
+    Variant("twin-gate-targets-both-kinds", VA, chain(replace_once("    from hypergraph.nodes.gate import END, GateNode\n\n    for node in nodes.values():\n        if not isinstance(node, GateNode):\n            continue\n\n        for target in node.targets:", "    from hypergraph.nodes.gate import END, IfElseNode, RouteNode\n\n    for node in nodes.values():\n        if not isinstance(node, (RouteNode, IfElseNode)):\n            continue\n\n        for target in node.targets:")), set()),
     Variant("validator-orphaned", VA, replace_once("    _validate_wait_for_references(nodes)\n    if strict_types:", "    if strict_types:"), {"C19.R1"}),
     Variant("validator-early-return", VA, replace_once("    _validate_consistent_defaults(nodes)\n    _validate_gate_targets(nodes)", "    _validate_consistent_defaults(nodes)\n    if not any(hasattr(n, \"targets\") for n in nodes.values()):\n        return\n    _validate_gate_targets(nodes)"), {"C19.R1"}),
     Variant("types-always-off", VA, replace_once("    if strict_types:\n        _validate_types(nodes, nx_graph)", "    if strict_types and graph_name:\n        _validate_types(nodes, nx_graph)"), {"C19.R1"}),
